@@ -27,6 +27,31 @@ CHECKS = {
         technique="deterministic simulation with fault injection: real loader threads under a seeded baton scheduler, fake remote with per-attempt fault plans, virtual sleep, kill-at-yield-point crashes on real tmpfs; exhaustive crash-point sweep + retry table + dataset pairs, then seeded swarm search; offline-load probe after every mutating step",
         text="Every crash point of 36 base scenarios, the full n_retries x failure-pattern x terminal-outcome table and (thorough) all ordered pairs of remote datasets are enumerated; tens of thousands (quick) to millions (thorough) of seeded storms of 1..16 concurrent loaders with network faults, corrupt bodies, partitions, stalls and crashes are sampled. After every file-system-mutating step the cache entry is probed with a real offline load: it must be absent or return exactly the verified data. Sampling outside the enumerated sub-spaces: a clean batch is evidence, not proof.",
         note="process death (not power loss) on tmpfs with POSIX rename; threads stand in for processes (loader has no process-global state); CPython refcounting closes the pickle file; genuine named payloads hash to the pinned digests via a hash seam (real figshare files unavailable offline); NumPy/pickle/tempfile/shutil trusted"),
+    "C18": dict(
+        engine="registry", category="exploration", design_ref="DESIGN.md section 5",
+        technique="fault-free exhaustive configuration sweep inside the simulated network + disk (fake remote, audit-hook file-system log, scratch data home): all documented names x spellings x unpack, all remote datasets into one data home in seeded orders, seeded unknown names, static pairwise distinctness",
+        text="All 95 documented names (parsed from the shipped tables at run time) x 5 spellings x both unpack values, plus the default-data-home case, are loaded through the real load_dataset inside the simulated world; every remote load must download exactly its own file once, cache it under the data home only, return its own payload and be served offline afterwards; all remote datasets loaded into one home must each return their own data; URL/digest/slot pairwise distinct. Exhaustive over names and flags; seeded for mixed spellings, load orders and unknown names.",
+        note="payloads are synthetic (one distinct body per URL); the pinned digests themselves cannot be validated offline; bundled CSVs are compared with an independent pure-Python parse"),
+    "C08": dict(
+        engine="weaver-c08", category="exploration", design_ref="DESIGN.md section 6",
+        technique="seeded search over operation histories of one Weaver against an executable reference model (choice-stream kernel, shrinking, exact replay); exhaustive enumeration of all sequences up to length 2 (quick) / 3 (thorough) over a 26-instance alphabet; two-object commutation check",
+        text="Tens of thousands (quick) to millions (thorough) of seeded histories of the ten domain operations (and interleaved reshaping operations) on seeded series; after every step get() and get_reference() are compared with a docstring-level model (R1/R2), reshaping operations must leave the reference bitwise unchanged (R3), recreate+match after a domain history must reproduce the transformed averages (R4) and shifts/scales must commute with the pipeline (R5). No scheduler or clock exists in this object; the history quantifier is what is searched.",
+        note="reference model trusted; moderate magnitudes; ratio bounds within rounding distance of a sample are not generated (their side depends on evaluation order, not on documented behaviour)"),
+    "C09": dict(
+        engine="weaver-c09", category="exploration", design_ref="DESIGN.md section 6",
+        technique="seeded search over programs of up to 10 operations from the whole public Weaver API with step-wise well-formedness, caller-array and original-series oracles, and a freshly constructed shadow object after restore_original (RNG seam gives both the same draws)",
+        text="Seeded programs over 17 operation kinds (all six strategies, four interpolation methods, list/tuple/array arguments, three constructors, read-only observers, in-place edits of get()'s result by the caller). After each step: ndarray/1-D/equal length/finite/strictly increasing (W1), every array the caller passed in is bitwise pristine (W2), get_original() equals the model (W3); after restore_original a new Weaver built on get_original() must stay bitwise identical under every later operation (W4).",
+        note="operations are issued only inside their documented preconditions; numpy.random.normal behind a recording seam"),
+    "C20": dict(
+        engine="weaver-c20", category="exploration", design_ref="DESIGN.md section 6",
+        technique="fault injection into seeded Weaver histories: rejected requests from 17 invalid-argument classes injected at seeded positions; ValueError type check, bitwise before/after snapshot of the three series, and a twin object that never saw the request shadowing all later operations",
+        text="After seeded valid histories, 1..3 invalid requests (length mismatch, non-(N,2) array, n<2 per strategy, unknown rule/strategy/method/dataset, bad fixed points, empty/inverted/mixed truncation ranges, index bounds, non-sample slice value, wrong grid end points, neither n nor new_x) are issued: each must raise ValueError (V1), leave get()/get_reference()/get_original() bitwise unchanged (V2), and the object must stay identical to its untouched twin under later operations (V3).",
+        note="an invalid request is only injected where the same call with valid arguments would be admissible, so that the injected argument is the only thing wrong"),
+    "C15": dict(
+        engine="noise", category="exploration", design_ref="DESIGN.md section 7",
+        technique="RNG seam: numpy.random.normal replaced by a seeded recording stub (exact check of the additive Gaussian term against the SNR definition), plus black-box runs of the real generator under fixed seeds with >= 6-sigma statistical bounds",
+        text="Thousands of seeded signals x SNR specifications x entry points with the RNG behind a seam: result - signal must equal sqrt(mean(y^2)/SNR) * z element-wise for the stub's known z (zero mean, right scale per sample, purely additive), x/length/input untouched. With the real generator: bitwise reproducibility under numpy.random.seed, and mean/variance/kurtosis/lag-1/empirical-SNR bounds on 2*10^5-sample series.",
+        note="if an implementation draws its Gaussian without numpy.random.normal the seam is reported unreached and only the black-box statistics judge"),
 }
 
 
